@@ -6,7 +6,7 @@ PROP = {
         "emit::span::{SpanCtxt::{current, new_child, new_root, push, new}, SpanGuard::{new, push_ctxt, start, drop}, TraceId::{random, from_value}, SpanId::{random, from_value}, completion::Default::complete}",
         "emit::Frame::{push, disabled, call}, emit_core::emit",
     ],
-    "bounds": "ONE inductive step: from an arbitrary ambient state (no ids, or any non-zero trace/span/parent ids) one span is created with a "
+    "bounds": "ONE inductive step: from an arbitrary ambient state (no ids, or ambient trace/span ids with or without a parent id; their values fixed in the quick tier, symbolic in the thorough tier and in the new_child kernel) one span is created with a "
               "symbolic filter verdict, run inside its frame (thorough: with an event inside) and completed through the default completion; "
               "SpanCtxt::new_root/new_child for any counter seed; counter rng; harness Ctxt. Trees of any depth follow by composing the step with "
               "C03's frame discipline (written argument in harness/hk_emit_min/src/c04_trace.rs); whole trees do not fit CBMC's memory (measured)",
